@@ -16,6 +16,7 @@ import (
 	"flag"
 	"fmt"
 	"io"
+	"log"
 	"os"
 	"sort"
 	"strconv"
@@ -558,7 +559,13 @@ var parseLines = []string{
 	"%generate afterIdent = set(follow ident);",
 }
 
+// complete, semantically valid grammars (every reference resolves), so that the later
+// phases of the compiler — template instantiation, rule expansion, table construction — run
+const validDoc1 = synthHeader + ":: lexer\n\nident: /[a-zA-Z_]+/\nnum: /[0-9]+/\n'+': /\\+/\n'-': /-/\n'(': /\\(/\n')': /\\)/\n';': /;/\n'π': /π/\nstr {string}: /\"[^\"]*\"/\nws: /[ \\t\\r\\n]+/ (space)\n\n:: parser\n\n%input root;\n\nroot: (item | manyopt)+ ;\nitem -> Item: ident '+' ident ';' | num ';' ;\n/* π😀 */ manyopt: ident? num? '+'? '-'? '('? ')'? 'π'? str? str? ';' ;\n"
+const validDoc2 = synthHeader + ":: lexer\n\nident: /[a-zA-Z_]+/\nnum: /[0-9]+/\n'+': /\\+/\n'*': /\\*/\n'(': /\\(/\n')': /\\)/\n';': /;/\nws: /[ \\t\\r\\n]+/ (space)\n\n:: parser\n\n%input root;\n%left '+';\n%left '*';\n\nroot -> Root: stmt+ ;\nstmt -> Stmt: expr ';' ;\nexpr -> Expr: expr '+' expr | expr '*' expr | '(' expr ')' | ident | num ;\n"
+
 func loadBaseGrammars() {
+	baseGrammars = append(baseGrammars, validDoc1, validDoc2)
 	repo := os.Getenv("VERIF_REPO")
 	if repo == "" {
 		repo = "/repo"
@@ -1525,6 +1532,12 @@ func (e *lsEngine) Run(src *sim.Src, log *sim.Log, res *sim.Result) {
 	}()
 	jsonrpc2.VerifBeforeWrite = nil
 	jsonrpc2.VerifWrapCtx = nil
+	if logBuf.Len() > 0 {
+		if strings.Contains(logBuf.String(), "WARNING") {
+			res.Probe("compiler-warning-logged")
+		}
+		logBuf.Reset()
+	}
 	if stray := strayBytes(); stray != "" && res.Violation == nil {
 		res.Fail("C23.I1", "stray-bytes-on-stdout", "the server process wrote %q to its standard output outside the protocol connection: in `textmapper ls` stdout IS the connection, so these bytes land between (or inside) frames", stray)
 	}
@@ -1987,6 +2000,26 @@ func (st *runState) fault(parkedNow []*parked) {
 // writes there (a stray fmt.Printf) lands in the middle of the frame stream.
 var strayStdout *os.File
 
+// logBuf receives what the code under test writes through the standard logger.
+var logBuf lockedBuffer
+
+type lockedBuffer struct {
+	mu sync.Mutex
+	b  bytes.Buffer
+}
+
+func (l *lockedBuffer) Write(p []byte) (int, error) {
+	l.mu.Lock()
+	defer l.mu.Unlock()
+	if l.b.Len() < 1<<16 {
+		l.b.Write(p)
+	}
+	return len(p), nil
+}
+func (l *lockedBuffer) Len() int       { l.mu.Lock(); defer l.mu.Unlock(); return l.b.Len() }
+func (l *lockedBuffer) String() string { l.mu.Lock(); defer l.mu.Unlock(); return l.b.String() }
+func (l *lockedBuffer) Reset()         { l.mu.Lock(); defer l.mu.Unlock(); l.b.Reset() }
+
 func strayBytes() string {
 	if strayStdout == nil {
 		return ""
@@ -2005,6 +2038,7 @@ func strayBytes() string {
 func TestZZLSSim(t *testing.T) {
 	loadBaseGrammars()
 	sim.Out = os.Stdout
+	log.SetOutput(&logBuf)
 	if f, err := os.CreateTemp("", "zzlssim-stdout."); err == nil {
 		os.Remove(f.Name())
 		strayStdout = f
